@@ -21,5 +21,5 @@ Extraction "../modelrun/model.ml"
   inew iadd imatch iupdate live_tickets
   qshared_of_queue queue_of_qshared qthread_init qaccept qcstep qquiescent
   agg_b listing_ok_b accounting_b
-  exhaust_b stats_b update_ok_b update_counts_b
+  exhaust_b stats_b stats_rebuild_b update_ok_b update_counts_b
   range_b handout_b cells_b final_cells_b drained_b ids.
